@@ -37,8 +37,8 @@ pub fn spec_call(r: Rows, stride: usize, off: usize) -> Rows {
     unsafe {
         let k = off + stride * SPEC_K;
         SPEC_K += 1;
-        assert!(k < UF_N, "OBL uf_call_exists");
-        assert!(rows_eq(r, UF_IN[k]), "OBL uf_call_arguments_match_spec");
+        assert!(k < UF_N, "OBL ?uf_call_exists");
+        assert!(rows_eq(r, UF_IN[k]), "OBL ?uf_call_arguments_match_spec");
         UF_OUT[k]
     }
 }
